@@ -95,7 +95,8 @@ def run_small(scn, tid, rng, root, BarcodeParser):
         if via == 'file':
             p = os.path.join(d, names[fno])
             eol = '\r\n' if tid % 5 == 2 else '\n'                 # CRLF files too
-            data = eol.join(lines) + (eol if tid % 2 else '')        # with and without trailing newline
+            data = eol.join(lines) + (eol if tid % 2 and lines else '')   # with and without trailing newline; an empty whitelist is an
+            #                                                              empty file (a blank line is refused loudly by the parser)
             if p.endswith('.gz'):
                 with gzip.open(p, 'wt', newline='') as h:
                     h.write(data)
